@@ -52,11 +52,11 @@ func minInt(a, b int) int {
 }
 
 type histGen struct {
-	r       *Rng
-	ver     string
-	ops     []toks
-	views   []gview
-	nits    int
+	r        *Rng
+	ver      string
+	ops      []toks
+	views    []gview
+	nits     int
 	length   int // digits of the base when finite, -1 when infinite
 	withCnt  bool
 	rootBase bool // a real root / rational: only positions below 50 are modelled
